@@ -13,17 +13,29 @@ import (
 	"github.com/vimeo/dials/zzverif"
 )
 
-func c16pflaggen(nfields int) {
+func c16pflaggen(nfields int) { c16pflaggenA(nfields, false) }
+
+func c16pflaggenA(nfields int, ptrAlphabet bool) {
 	shapes := make([]int, nfields)
 	for i := range shapes {
-		shapes[i] = zzverif.Choose("shape"+strconv.Itoa(i), zzverif.GenNumNamedShapes())
+		if ptrAlphabet {
+			shapes[i] = zzverif.Choose("shape"+strconv.Itoa(i), zzverif.GenNumPtrShapes())
+		} else {
+			shapes[i] = zzverif.Choose("shape"+strconv.Itoa(i), zzverif.GenNumNamedShapes())
+		}
 	}
 	gt, ok := zzverif.GenStructNamed(shapes)
+	if ptrAlphabet {
+		gt, ok = zzverif.GenStructPtr(shapes)
+	}
 	if !ok {
 		zzverif.Reached("c16-pflaggen-end")
 		return
 	}
 	scalar := func(k int) bool {
+		if ptrAlphabet {
+			return true // every leaf of the pointer alphabet is given on the command line
+		}
 		switch k {
 		case zzverif.GLNamedString, zzverif.GLNamedBool, zzverif.GLNamedInt64, zzverif.GLNamedFloat32, zzverif.GLNamedUint8, zzverif.GLPtrNamedString:
 			return true
@@ -70,3 +82,4 @@ func c16pflaggen(nfields int) {
 }
 
 func HarnessC16PflagGen2() { c16pflaggen(2) }
+func HarnessC16PflagPtrGen2() { c16pflaggenA(2, true) }
